@@ -19,3 +19,49 @@ contract(
     raises={"TypeError": lambda data: len(data) == 0},
     serves=["C01", "C07"],
 )
+
+
+# ------------------------------------------------------------------------------------------ key / index conditions
+from pyvc.contracts import Obj, TupleOf, Bool
+from contracts.datawrap import Scalar
+
+
+def WrappedData(is_list):
+    return Obj(valida.data.Data, _keys=TupleOf(), _values=TupleOf(), _is_list=Const(is_list))
+
+
+contract(
+    "valida.conditions:KeyLike.filter",
+    variants=[dict(self=LeafShape(c), data=d, _kind=Const(k)) for c in (cnds.Key, cnds.KeyLength, cnds.KeyDataType)
+              for k, d in (("dict", DictVal()), ("list", ListVal()), ("scalar", Scalar()), ("wrapped-map", WrappedData(False)),
+                           ("wrapped-list", WrappedData(True)))],
+    params=dict(data_has_paths=Const(False), source_data=Const(None)),
+    requires=lambda data, _kind: not _kind.startswith("wrapped") or len(data._keys) == len(data._values),
+    ensures=lambda self, data, result, _kind:
+        type(result) is valida.data.FilteredData
+        and (len(result.result) == len(data) and forall_idx(len(data), lambda j:
+                                                            same(result.result[j], Meaning(self, list(data.keys())[j])))
+             if _kind == "dict" else
+             len(result.result) == len(data._keys) and forall_idx(len(data._keys), lambda j:
+                                                                  same(result.result[j], Meaning(self, data._keys[j])))),
+    raises={"TypeError": lambda data, _kind: _kind in ("list", "scalar", "wrapped-list") or (_kind == "dict" and len(data) == 0)},
+    serves=["C01", "C03", "C07"],
+    note="a key condition filters the keys of a mapping and refuses anything else with TypeError",
+)
+contract(
+    "valida.conditions:IndexLike.filter",
+    variants=[dict(self=LeafShape(cnds.Index), data=d, _kind=Const(k))
+              for k, d in (("dict", DictVal()), ("list", ListVal()), ("scalar", Scalar()), ("wrapped-map", WrappedData(False)),
+                           ("wrapped-list", WrappedData(True)))],
+    params=dict(data_has_paths=Const(False), source_data=Const(None)),
+    requires=lambda data, _kind: not _kind.startswith("wrapped") or len(data._keys) == len(data._values),
+    ensures=lambda self, data, result, _kind:
+        type(result) is valida.data.FilteredData
+        and (len(result.result) == len(data) and forall_idx(len(data), lambda j: same(result.result[j], Meaning(self, j)))
+             if _kind == "list" else
+             len(result.result) == len(data._keys) and forall_idx(len(data._keys), lambda j:
+                                                                  same(result.result[j], Meaning(self, data._keys[j])))),
+    raises={"TypeError": lambda data, _kind: _kind in ("dict", "scalar", "wrapped-map") or (_kind == "list" and len(data) == 0)},
+    serves=["C01", "C03", "C07"],
+    note="an index condition filters the positions of a list and refuses anything else with TypeError",
+)
